@@ -2672,7 +2672,8 @@ check_positions(
     }
 
     for (i = 0; i < num_positions - 1; i++) {
-        if (positions[i] < 0 || positions[i] >= sequence_length) {
+        /* written so that NaN is rejected too */
+        if (!(positions[i] >= 0 && positions[i] < sequence_length)) {
             ret = tsk_trace_error(TSK_ERR_POSITION_OUT_OF_BOUNDS);
             goto out;
         }
@@ -2686,7 +2687,7 @@ check_positions(
         }
     }
     // check bounds of last value
-    if (positions[i] < 0 || positions[i] >= sequence_length) {
+    if (!(positions[i] >= 0 && positions[i] < sequence_length)) {
         ret = tsk_trace_error(TSK_ERR_POSITION_OUT_OF_BOUNDS);
         goto out;
     }
